@@ -356,6 +356,56 @@ pub fn run(cfg: &Cfg, rep: &mut Report) {
             }
         }
     }
+    // 1c. case folding at compile time: one representative of every case equivalence class (by
+    // size and by relation; quick tier: every class with more than two members, a seed-selected
+    // eighth of the pairs) in every position that expands or closes it -- literal, class, negated
+    // class, class string of two or more characters, lookbehind, counted loop.
+    {
+        let cd = crate::uniref::case_data();
+        let mut reps: Vec<u32> = Vec::new();
+        for unicode in [true, false] {
+            for c in cd.nontrivial(unicode).iter() {
+                let cls = cd.class_of(c, unicode);
+                if cls[0] != c {
+                    continue;
+                }
+                if cfg.quick() && cls.len() <= 2 && c % 8 != (cfg.seed % 8) as u32 {
+                    continue;
+                }
+                // the representative and the last member (tables are often keyed on one of them)
+                reps.push(c);
+                reps.push(*cls.last().unwrap());
+            }
+        }
+        reps.sort_unstable();
+        reps.dedup();
+        rep.add("case_class_members_compiled", 0);
+        for &c in &reps {
+            let mut lit = Vec::new();
+            esc(c, &mut lit);
+            let l = engine::cps_to_string_lossy(&lit);
+            for tmpl in ["X", "[X]", "[^X]", "[\\q{Xa}]", "[\\q{aX|X}]", "(?<=Xa)b", "X{2,3}?a", "[X-X]", "(X)\\1", "[^\\q{X}]"] {
+                let ps = tmpl.replace("X", &l);
+                let p = cps(&ps);
+                for fl in ["i", "iu", "iv"] {
+                    idx += 1;
+                    let h = fnv64(format!("cf|{}|{}|{}", c, tmpl, fl).as_bytes());
+                    if !cfg.mine(h) || skip(idx) {
+                        continue;
+                    }
+                    let desc = J::obj().set("pattern", ps.as_str()).set("pattern_cps", J::Arr(p.iter().map(|&c| J::from(c)).collect())).set("flags", fl).set("source", "case_classes");
+                    if idx % 64 == 0 {
+                        rep.begin(idx, &desc);
+                    }
+                    rep.inc("programs");
+                    rep.inc("source.case_classes");
+                    let out = run_case(rep, &desc, &p, Flags::from_str(fl), idx % 4 == 0);
+                    rep.inc(&format!("outcome.{}", out));
+                }
+            }
+            rep.inc("case_class_members_compiled");
+        }
+    }
     // 2. truncated prefixes and single edits of corpus patterns, all flag sets of {none,u,v} x {none,i}
     let flagsets = ["", "u", "v", "i", "iu", "iv", "ms"];
     let mut rng = Rng::new(cfg.seed ^ 0x07);
